@@ -12,7 +12,9 @@ Definition nat_set_exact (model obs : list nat) : bool :=
   nat_set_eqb model obs && Nat.eqb (length model) (length obs).
 
 Inductive link_case :=
-| Hist (univ : list link) (me : Z) (h : list action)
+| Hist (univ : list link) (me : Z)
+       (held : list (Z * Z))              (* directives already referenced (running) before the history *)
+       (h : list action)
        (obs : list (list nat))            (* per action: directive values of a Resolve, [] otherwise *)
        (links : list (Z * nat))           (* snapshot c.links *)
        (by_peer : list (Z * list nat))    (* snapshot c.linksByPeerID *)
@@ -46,10 +48,11 @@ Fixpoint perms {A} (l : list A) : list (list A) :=
 
 Definition link_agree (c : link_case) : bool :=
   match c with
-  | Hist univ me h obs links by_peer gpl closed =>
+  | Hist univ me held h obs links by_peer gpl closed =>
       let U := univ_fn univ in
-      let s := run U me h in
-      list_list_eqb (trace U (init me) h) obs
+      let s0 := set_dirs (init me) (map (fun k => (fst k, snd k, [])) held) in
+      let s := run_from U s0 h in
+      list_list_eqb (trace U s0 h) obs
       && links_eqb (st_links s) links
       && Nat.eqb (length (st_by_peer s)) (length by_peer)
       && forallb (fun e => nat_set_exact (peer_links (fst e) s) (snd e)) by_peer
